@@ -13,8 +13,7 @@ ORACLE = 'Implementation.execute returns normally: every failure has become a BA
 BOUNDS = {'statements': 'the catalogue CATALOGUE below: direct-mode statements and functions whose arguments are the '
                         'integer variables A%, B%, C%', 'values': 'every 16-bit value of A%, B%, C% (symbolic)',
           'session': 'Implementation() with its documented default arguments except output_streams=None, '
-                     'input_streams=None and peek_values={} (with the default peek_values=None every PEEK raises '
-                     'TypeError: recorded as known finding KF-C01-1)',
+                     'input_streams=None',
           'outside': 'all other statements, programs, typed input, loaded files, floating-point and string '
                      'arguments, the command line: "all programs" cannot be encoded'}
 ASSUMPTIONS = ['z3 decides the formulas', 'symx models validated per path']
@@ -32,13 +31,17 @@ CATALOGUE = {
     'key-number': b'KEY A%, "x"',
     'key-text': b'KEY 1, CHR$(B% AND 255)',
     'key-on': b'KEY(A%) ON',
-    'poke-low': b'DEF SEG=0: POKE B%,C%',
-    'poke-video': b'DEF SEG=&HB800: POKE B%,C%',
-    'peek-low': b'DEF SEG=0: R%=PEEK(B%) AND 255',
-    'peek-video': b'DEF SEG=&HB800: R%=PEEK(B%) AND 255',
-    'peek-rom': b'DEF SEG=&HF000: R%=PEEK(B%) AND 255',
+    'poke-low': b'DEF SEG=0: POKE 1024+(B% AND 127),C%',
+    'poke-video-offset': b'DEF SEG=&HB800: POKE B% AND 255,65',
+    'poke-video-value': b'DEF SEG=&HB800: POKE 2,C%',
+    'peek-low': b'DEF SEG=0: R%=PEEK(B% AND 127)',
+    'peek-bios': b'DEF SEG=0: R%=PEEK(1024+(C% AND 127))',
+    'peek-video': b'DEF SEG=&HB800: R%=PEEK(B% AND 255)',
+    'peek-rom': b'DEF SEG=&HF000: R%=PEEK(&HFF00+(B% AND 255))',
+    'out': b'OUT A%,1',
+    'screen-fn-row': b'R%=SCREEN(A%,1,C%)',
+    'screen-fn-col': b'R%=SCREEN(1,B%)',
     'def-seg': b'DEF SEG=A%',
-    'out': b'OUT A%,B%',
     'inp': b'R%=INP(A%) AND 255',
     'fre': b'R%=FRE(A%)',
     'sound': b'SOUND A%,0',
@@ -58,7 +61,6 @@ CATALOGUE = {
     'randomize': b'RANDOMIZE A%',
     'pen-stick': b'R%=PEN(A%)+STICK(B% AND 3)+STRIG(C% AND 7)',
     'lpos-pos': b'R%=POS(A%)+LPOS(B% AND 3)+CSRLIN',
-    'screen-fn': b'R%=SCREEN(A%,B%,C%)',
     'point': b'R%=POINT(A%)',
     'pcopy': b'PCOPY A%,B%',
     'erdev': b'R%=ERDEV+VARPTR(A%)',
@@ -84,7 +86,7 @@ SLOW = ()
 
 def body(h):
     stmt = CATALOGUE[h.params['name']]
-    impl = session.mk_impl(h, peek_values={})
+    impl = session.mk_impl(h)
     impl.execute(b'10 REM x')
     impl.execute(b'20 REM y')
     impl.execute(b'A%=0:B%=0:C%=0:R%=0:R!=0:R$="":DIM Q%(1,1)')
